@@ -1,8 +1,39 @@
-/- line-protocol engine `conv` (stub: answers bad-op until the engine is built) -/
+/- line-protocol engine `conv` (C20): the generated standard-library definitions (`std <fn> <ints…> | <fixed-point
+floats…>`) and the hand-written conversion models. -/
+import Generated.StdInt
 namespace XrayDriver
+open XrayGen
+
+/-- scale of the driver's exact fixed point: a float argument `t` is sent as the integer `t * 2^20` -/
+def convScale : Int := 1048576
+
+def splitBar (xs : List String) : List String × List String :=
+  match xs.span (fun s => s != "|") with
+  | (a, _ :: b) => (a, b)
+  | (a, []) => (a, [])
+
+/-- `rows lo n`: for the `n` Julian days from `lo`: `year month day julian_day(date) weekday(date)`, `;`-separated -/
+def dateRows (lo : Int) : Nat → List String
+  | 0 => []
+  | n + 1 =>
+    let d := date lo
+    s!"{d.year} {d.month} {d.day} {julian_day d} {weekday d}" :: dateRows (lo + 1) n
 
 def convEngine (f : String) (args : List String) : String :=
   match f, args with
+  | "std", name :: rest =>
+    let (is, fs) := splitBar rest
+    match is.mapM String.toInt?, fs.mapM String.toInt? with
+    | some ints, some floats =>
+      match stdCall (fixOps convScale) toString name ints floats with
+      | some r => r
+      | none => "bad-op"
+    | _, _ => "bad-op"
+  | "rows", [lo, n] =>
+    match lo.toInt?, n.toNat? with
+    | some lo, some n => String.intercalate ";" (dateRows lo n)
+    | _, _ => "bad-op"
+  | "names", [] => String.intercalate " " stdNames
   | _, _ => "bad-op"
 
 end XrayDriver
